@@ -76,6 +76,11 @@ def s09_pass_through(ctx):
                     continue
                 if c['def'] in wrappers or (c.get('res') and c['res'].get('def') in wrappers):
                     deleg.append((b, bi, t))
+                # delegation through a function value: `Self::new(..).map(Self::into_fn)` applies the wrapper once to the Ok / Some payload
+                if cname in ('map', 'and_then') and ('result::Result' in d or 'option::Option' in d):
+                    for ao in t['args'][1:]:
+                        if ao.get('o') == 'const' and ao['v'].get('c') == 'fn' and ao['v'].get('def') in wrappers:
+                            deleg.append((b, bi, t))
                 # lossy adaptors on iterators / slices / vecs
                 tr_ = c.get('trait') or ''
                 is_iter = tr_.endswith('iter::Iterator') or tr_.endswith('DoubleEndedIterator') or 'slice' in d or 'vec::Vec' in d
